@@ -64,7 +64,11 @@ def _declared(op, key) -> bool:
     return key in d.properties or key in d.attributes
 
 
-def culprit_key(name: str, s: dict, op=None) -> str:
+def culprit_key(name: str, s: dict, op=None, label=None) -> str:
+    """Mechanism key. Canonical differences: (op, component, attribute key, gained|dropped|changed). Failures to
+    print / re-parse: the mutation that, when undone, removes the failure (`after-<kind>:<target>`) when there is one
+    (the parser production that happens to reject depends on the attribute VALUE chosen, so it is not part of the
+    key then), else the parser production / raising function."""
     sym = s["symptom"]
     if sym == "canon-differs":
         k = f"custom:{name}:{s.get('component')}"
@@ -76,24 +80,35 @@ def culprit_key(name: str, s: dict, op=None) -> str:
         if s.get("op") != name:
             k += f"@{s.get('op')}"
         return k
-    if sym == "reparse-fail":
-        return f"custom:{name}:reparse-fail:{s.get('site')}"
     if sym in ("print-crash", "reparse-crash"):
-        return f"custom:{name}:{sym}:{s.get('exc')}:{s.get('site')}"
+        tail = f"after-{label}" if label else f"{s.get('site')}"
+        return f"custom:{name}:{sym}:{s.get('exc')}:{tail}"
+    if sym == "reparse-fail":
+        return f"custom:{name}:reparse-fail:" + (f"after-{label}" if label else f"{s.get('site')}")
     return f"custom:{name}:{sym}"
+
+
+def mutation_label(a) -> str:
+    """kind:target with harness-chosen details removed (extra attribute names, group sizes)."""
+    t = a.target
+    if a.kind == "extra_attrs":
+        t = "<discardable>"
+    elif ":" in t:
+        t = t.split(":")[0]
+    return f"{a.kind}:{t}"
 
 
 def plan(tier, seed):
     quick = tier == "quick"
     n = 32 if quick else 64
-    jobs = [{"kind": "corpus", "i": i, "n": n, "seed": seed, "rounds": 1 if quick else 4} for i in range(n)]
+    jobs = [{"kind": "corpus", "i": i, "n": n, "seed": seed, "rounds": 2 if quick else 6} for i in range(n)]
     return jobs
 
 
 def work(job):
     from xv import corpus
-    from xv.c04_rt import op_text, roundtrip, selective_printer
-    from xv.c05_gen import MUTATIONS, Pool, has_custom_format, is_declarative, mutate_op, op_signature
+    from xv.c04_rt import all_diff_op_names, op_text, roundtrip, selective_printer
+    from xv.c05_gen import MUTATIONS, Pool, has_custom_format, is_declarative, mutate_op, op_signature, op_verifies
     from xv.worker import journal
 
     res = {"evaluations": 0, "nontrivial": [], "samples": [], "counters": {}, "sets": {}, "violations": [], "extra": {}}
@@ -132,58 +147,119 @@ def work(job):
             else:
                 bump("op_instances_without_custom_format")
 
+    def mg_ok(x):
+        return x is not None
+
     def find_instance(m, name, s):
         for op in m.walk():
             if op.name == name:
                 return op
         return None
 
-    def attribute(m, ctx, first, reference, case_id, state, replay_job):
-        """Single-operation isolation. Returns number of reported culprits."""
-        names = custom_names(m)
-        guesses = []
-        for s in first:
+    current_mutations: dict[str, list] = {}
+    current_applied: list = []
+
+    def sig(s):
+        if s["symptom"] == "canon-differs":
+            return ("canon-differs", s.get("op"), s.get("component"), s.get("key"), s.get("detail") if "key" in s else None)
+        return (s["symptom"], s.get("exc"), s.get("site"), _msg_class(s.get("msg", "")))
+
+    def guesses_from(symptoms, names):
+        out = []
+        for s in symptoms:
             if s.get("op") in names:
-                guesses.append(s["op"])
+                out.append(s["op"])
             w = s.get("where") or {}
             for g in _OPNAME.findall(w.get("line", "")):
                 if g in names:
-                    guesses.append(g)
-        order = list(dict.fromkeys(guesses)) + [n for n in names if n not in guesses]
+                    out.append(g)
+        return list(dict.fromkeys(out))
+
+    def attribute(m, ctx, first, reference, case_id, state, replay_job, generic_sigs, first_r=None):
+        """Single-operation isolation: print with ONE custom format enabled; the next candidate is guessed from the
+        symptoms that remain once the culprits found so far are printed generically."""
+        names = custom_names(m)
+        remaining = list(names)
         culprits = []
-        for idx, name in enumerate(order):
+        current = first
+
+        def run(custom):
             bump("isolation_roundtrips")
             r = roundtrip(m, ctx, False, reference=reference, check_clone=False, check_text=False,
-                          printer_cls=SP, printer_kw={"custom_names": frozenset([name])})
-            if r["symptoms"]:
-                culprits.append((name, r))
-                # done when printing the culprits generically makes the module round-trip
-                rest = frozenset(n for n in names if n not in {c for c, _ in culprits})
-                bump("isolation_roundtrips")
-                rr = roundtrip(m, ctx, False, reference=reference, check_clone=False, check_text=False,
-                               printer_cls=SP, printer_kw={"custom_names": rest})
-                if not rr["symptoms"]:
+                          printer_cls=SP, printer_kw={"custom_names": frozenset(custom)})
+            r["symptoms"] = [s for s in r["symptoms"] if sig(s) not in generic_sigs]
+            return r
+        # fast path for pure canonical differences: every op that differs in a synchronised walk (or one of its
+        # ancestors) is a candidate; isolate each once, then check the rest once
+        if all(s["symptom"] == "canon-differs" for s in first) and first_r is not None and first_r["m2"] is not None:
+            ref_mod, ref_tab = (reference[1], reference[2]) if reference is not None else (m, None)
+            tested = set()
+            for chain in all_diff_op_names(ref_mod, first_r["m2"], ref_tab, first_r["tab2"]):
+                for name in chain:  # the differing op itself, else the closest ancestor whose format reproduces it
+                    if name in tested:
+                        if any(name == c for c, _ in culprits):
+                            break
+                        continue
+                    if name not in remaining:
+                        continue
+                    tested.add(name)
+                    r = run([name])
+                    if r["symptoms"]:
+                        culprits.append((name, r))
+                        remaining.remove(name)
+                        break
+            if culprits:
+                current = run(remaining)["symptoms"]
+        while current and remaining:
+            g = [n for n in guesses_from(current, names) if n in remaining]
+            order = g + [n for n in remaining if n not in g]
+            found = None
+            for name in order:
+                r = run([name])
+                if r["symptoms"]:
+                    found = (name, r)
                     break
-        if not culprits:
-            for s in first:
+            if found is None:
+                break
+            culprits.append(found)
+            remaining.remove(found[0])
+            rr = run(remaining)
+            current = rr["symptoms"]
+        if not culprits or current:
+            for s in (current or first):
                 viol(f"custom:<no single operation>:{s['symptom']}:{s.get('component') or s.get('site')}",
-                     f"{case_id} [{state}] fails only with all custom formats enabled: {s}",
+                     f"{case_id} [{state}] fails only with several custom formats enabled: {s}",
                      {"case": case_id, "state": state, "symptom": s, "replay_job": replay_job})
-            return 0
         for name, r in culprits:
+            label = None
+            hard = [s for s in r["symptoms"] if s["symptom"] != "canon-differs"]
+            mine = [a for a in current_applied if a.op_name == name and not getattr(a, "undone", False)]
+            if hard and mine:
+                # which mutation of this operation is responsible? undo them label by label and re-run the isolation
+                labels = list(dict.fromkeys(mutation_label(a) for a in mine))
+                hard_sigs = {sig(x) for x in hard}
+                for lb in labels:
+                    for a in reversed([a for a in mine if mutation_label(a) == lb]):
+                        a.undo()
+                        a.undone = True
+                    if not ({sig(x) for x in run([name])["symptoms"]} & hard_sigs):
+                        label = lb
+                        break
             for s in r["symptoms"]:
                 inst = find_instance(m, name, s)
-                key = culprit_key(name, s, inst)
+                dop = find_instance(m, s.get("op"), s) if s.get("op") and s.get("op") != name else inst
+                key = culprit_key(name, s, dop, label if s["symptom"] != "canon-differs" else None)
                 wit = {"case": case_id, "state": state, "operation": name, "symptom": {k: v for k, v in s.items()},
+                       "mutations_applied_to_this_op_in_the_module": sorted(set(current_mutations.get(name, [])))[:10],
                        "custom_text_of_first_instance": op_text(inst, generic=False, limit=600) if inst is not None else None,
                        "generic_text_of_first_instance": op_text(inst, generic=True, limit=600) if inst is not None else None,
-                       "replay_job": replay_job}
+                       "replay_job": dict(replay_job, state=state)}
                 viol(key, f"{name}: {s['symptom']} {({k: v for k, v in s.items() if k not in ('symptom', 'where')})} ({case_id} [{state}])", wit)
         return len(culprits)
 
-    def evaluate(m, ctx, case_id, state, replay_job, generic_info=None):
-        """Custom round trip of the current state of `m`. generic_info = (canon_generic_rt or None if failed) computed
-        by the caller for base states; computed lazily here for mutants."""
+    def evaluate(m, ctx, case_id, state, replay_job, g=None):
+        """Custom round trip of the current state of `m`; `g` = generic round trip of the same state if the caller has
+        it (computed lazily otherwise, only when the custom round trip shows symptoms)."""
         res["evaluations"] += 1
         bump(f"modules_evaluated:{state.split(':')[0]}")
         observe(m)
@@ -192,22 +268,25 @@ def work(job):
         if not r["symptoms"]:
             bump("custom_roundtrips_ok")
             return True
+        if g is None:
+            g = roundtrip(m, ctx, True, check_clone=False, check_text=False)
+            bump("lazy_generic_roundtrips")
+        generic_sigs = {sig(s) for s in g["symptoms"]}
+        mine = [s for s in r["symptoms"] if sig(s) not in generic_sigs]
+        if len(mine) < len(r["symptoms"]):
+            bump("symptoms_shared_with_generic_form(C04/C06 domain, not reported)", len(r["symptoms"]) - len(mine))
         reference = None
-        if any(s["symptom"] == "canon-differs" for s in r["symptoms"]):
-            if generic_info is None:
-                g = roundtrip(m, ctx, True, check_clone=False, check_text=False)
-                bump("lazy_generic_roundtrips")
-                generic_info = ("fail", None) if any(s["symptom"] in ("reparse-fail", "reparse-crash", "print-crash") for s in g["symptoms"]) \
-                    else ("ok", g["canon2"])
-            if generic_info[0] == "ok" and generic_info[1] is not None:
-                if generic_info[1] == r["canon2"]:
-                    bump("difference_shared_with_generic_form(C04/C06 domain, not reported)")
-                    return True
-                if generic_info[1] != r["canon"]:
-                    reference = generic_info[1]
-                    bump("generic_round_trip_used_as_reference(generic form lossy)")
+        if g["m2"] is not None and g["canon2"] != r["canon"]:
+            # the generic form is itself lossy for this module: compare the custom form with the generic round trip
+            reference = (g["canon2"], g["m2"], g["tab2"])
+            bump("generic_round_trip_used_as_reference(generic form lossy)")
+            if r["canon2"] is not None and r["canon2"] == g["canon2"]:
+                mine = [s for s in mine if s["symptom"] != "canon-differs"]
+        if not mine:
+            bump("custom_roundtrips_ok")
+            return True
         bump("custom_roundtrips_with_symptoms")
-        attribute(m, ctx, r["symptoms"], reference, case_id, state, replay_job)
+        attribute(m, ctx, mine, reference, case_id, state, replay_job, generic_sigs, r)
         return False
 
     kind = job["kind"]
@@ -238,63 +317,83 @@ def work(job):
         rj = {"kind": "one", "file": f, "idx": i, "seed": job["seed"], "rounds": job["rounds"]}
         # --- base state: as parsed from the corpus (custom parsers ran)
         g = roundtrip(m, ctx, True, check_clone=False, check_text=False)
-        gfail = any(s["symptom"] in ("reparse-fail", "reparse-crash", "print-crash") for s in g["symptoms"])
+        gfail = g["m2"] is None
         if gfail:
             bump("generic_form_not_reparseable(C04 domain)")
-        ginfo = ("fail", None) if gfail else ("ok", g["canon2"])
         if only_state in (None, "as-parsed"):
-            evaluate(m, ctx, case_id, "as-parsed", rj, ginfo)
+            evaluate(m, ctx, case_id, "as-parsed", rj, g)
         # --- generic-form input printed in custom form
+        mg = None
         if not gfail and g["m2"] is not None and only_state in (None, "from-generic"):
             mg = g["m2"]
+            from xv.canon import canon_ir
+            from xv.c04_rt import resolve_resources
+            if resolve_resources(canon_ir(m, normalise=False), {}) == resolve_resources(canon_ir(mg, normalise=False), {}):
+                # the generic parser built exactly what the custom parsers built: the custom print is the same text
+                bump("from_generic_identical_to_as_parsed(not re-evaluated)")
+                mg = None
+        if mg_ok(mg):
             try:
                 mg.verify()
             except Exception:  # noqa: BLE001 - C04's business
                 bump("generic_reparse_does_not_verify(C04 domain)")
             else:
-                from xv.corpus import new_ctx
-                evaluate(mg, new_ctx(), case_id, "from-generic", rj, None)
+                evaluate(mg, g["ctx2"], case_id, "from-generic", rj, None)
         if len(res["samples"]) < 1:
             res["samples"].append({"corpus_chunk": case_id, "custom_format_ops": custom_names(m)[:12]})
-        # --- mutation rounds
+        # --- mutation rounds: every op instance receives ONE mutation per round; the kind rotates with the instance
+        #     number of that op name and the round, so that all (op, kind, target) combinations get visited
         for rnd in range(job["rounds"]):
-            for kind_i, mk in enumerate(MUTATIONS):
-                state = f"mutant:{mk}:r{rnd}"
-                if only_state is not None and only_state != state:
+            state = f"mutant:r{rnd}"
+            if only_state is not None and only_state != state:
+                continue
+            rng = random.Random(shash((job["seed"], case_id, rnd)))
+            applied = []
+            local_count: dict[str, int] = {}
+            for op in list(m.walk()):
+                if not has_custom_format(op) or op.parent is None:
                     continue
-                rng = random.Random(shash((job["seed"], case_id, mk, rnd)))
-                applied = []
-                local_count: dict[str, int] = {}
-                for op in list(m.walk()):
-                    if not has_custom_format(op) or op.parent is None:
-                        continue
-                    k = local_count.get(op.name, 0)
-                    local_count[op.name] = k + 1
-                    g_k = inst_counter.get(op.name, 0) + k
-                    a = mutate_op(op, mk, rng, pool, g_k + rnd + job["seed"])
+                k = local_count.get(op.name, 0)
+                local_count[op.name] = k + 1
+                g_k = inst_counter.get(op.name, 0) + k + rnd + job["seed"]
+                for off in range(len(MUTATIONS)):
+                    mk = MUTATIONS[(g_k + off) % len(MUTATIONS)]
+                    a = mutate_op(op, mk, rng, pool, g_k // len(MUTATIONS) + off)
                     if a is not None:
                         applied.append(a)
+                        break
+            if rnd == job["rounds"] - 1:
                 for nme, k in local_count.items():
                     inst_counter[nme] = inst_counter.get(nme, 0) + k
-                if not applied:
-                    continue
-                try:
-                    m.verify()
-                    ok = True
-                except Exception:  # noqa: BLE001 - cross-op constraint broken by the combination: outside the domain
-                    ok = False
-                if not ok:
-                    bump("mutation_rounds_not_verifying(skipped)")
-                    bump("op_mutations_lost_to_unverifiable_rounds", len(applied))
-                else:
-                    bump(f"mutations_applied:{mk}", len(applied))
-                    for a in applied:
-                        sets.setdefault(f"ops_mutated:{mk}", set()).add(a.op_name)
-                    if len(res["samples"]) < 3 and applied:
-                        res["samples"].append({"mutant_of": case_id, "mutation": mk,
-                                               "targets": [f"{a.op_name}:{a.target}" for a in applied[:8]]})
-                    evaluate(m, ctx, case_id, state, rj, None)
-                for a in reversed(applied):
+            if not applied:
+                continue
+            # a combination may break a cross-op constraint (symbol uses, parent/terminator rules): give back half of
+            # the mutations until the module is inside the domain again
+            while applied and not op_verifies(m, nested=True):
+                half = applied[len(applied) // 2:]
+                for a in reversed(half):
+                    a.undo()
+                applied = applied[:len(applied) // 2]
+                bump("op_mutations_given_back_to_restore_verification", len(half))
+            if not applied:
+                bump("mutation_rounds_not_verifying(skipped)")
+            else:
+                for a in applied:
+                    bump(f"mutations_applied:{a.kind}")
+                    sets.setdefault(f"ops_mutated:{a.kind}", set()).add(a.op_name)
+                if len(res["samples"]) < 3:
+                    res["samples"].append({"mutant_of": case_id, "mutations": [f"{a.op_name}:{a.kind}:{a.target}" for a in applied[:8]]})
+                by_op: dict[str, list] = {}
+                for a in applied:
+                    by_op.setdefault(a.op_name, []).append(f"{a.kind}:{a.target}")
+                current_mutations.clear()
+                current_mutations.update(by_op)
+                current_applied[:] = applied
+                evaluate(m, ctx, case_id, state, rj, None)
+                current_mutations.clear()
+                current_applied[:] = []
+            for a in reversed(applied):
+                if not getattr(a, "undone", False):
                     a.undo()
         if job["rounds"] and only_state is None:
             # the undo machinery must leave the module as it was (harness self-check: a bug here crashes the shard)
@@ -309,7 +408,7 @@ def work(job):
 def finish(agg, tier):
     inc = []
     c = agg.counters
-    need = {"modules_evaluated:as-parsed": 700, "modules_evaluated:from-generic": 700, "modules_evaluated:mutant": 2000,
+    need = {"modules_evaluated:as-parsed": 700, "modules_evaluated:from-generic": 100, "modules_evaluated:mutant": 1200,
             "op_instances_printed_in_custom_form": 50000, "custom_roundtrips_ok": 3000}
     for k, v in need.items():
         if c.get(k, 0) < v:
